@@ -3,7 +3,7 @@
 and run every check that consults that module. A VIOLATION on a transformed tree is a FALSE ALARM of the checker (to be fixed in the rule);
 an ANALYSIS-ERROR is the designed 'cannot recognise this shape' outcome (acceptable, but worth reducing).
 
-usage: metamorph.py [T1 T2 ...] [--files f1,f2] [--pids C01,C02]
+usage: metamorph.py [T1 T2 ...] [--files f1,f2] [--pids C01,C02] [--all]   (--all: print every falsified obligation, not only the first four per run)
 """
 from __future__ import annotations
 
@@ -18,6 +18,7 @@ sys.path.insert(0, VERIF)
 from sa import source  # noqa: E402
 
 PIDS = [f"C{i:02d}" for i in range(1, 21)]
+ALL = "--all" in sys.argv
 
 
 def pure(e: ast.AST) -> bool:
@@ -67,9 +68,18 @@ class RenameLocals(ast.NodeTransformer):
 class SwapCommutative(ast.NodeTransformer):
     """T2: reverse the operands of and/or when all are pure; flip pure == / != / < / > comparisons."""
 
+    @staticmethod
+    def _total(e):
+        """cannot raise whatever the other operands are: names, attributes, `x is [not] None`, `not <total>` (an `a <= b` or `k in d` operand may rely on an earlier None-guard)."""
+        if isinstance(e, ast.UnaryOp) and isinstance(e.op, ast.Not):
+            return SwapCommutative._total(e.operand)
+        if isinstance(e, ast.Compare):
+            return len(e.ops) == 1 and isinstance(e.ops[0], (ast.Is, ast.IsNot)) and isinstance(e.left, ast.Name)
+        return isinstance(e, ast.Name)
+
     def visit_BoolOp(self, n):
         self.generic_visit(n)
-        if all(pure(v) for v in n.values):
+        if all(self._total(v) for v in n.values):
             n.values = list(reversed(n.values))
         return n
 
@@ -156,7 +166,7 @@ def job(args):
     known = chk._known()
     bad = [o for o in chk.obligations if not o.ok and not any(e.get("rule") == o.rule and e.get("construct") and e["construct"] in o.key for e in known)]
     if bad:
-        return tname, relpath, pid, "FALSE-ALARM", [f"[{o.rule}] {o.instance}: {o.detail}"[:220] for o in bad[:4]]
+        return tname, relpath, pid, "FALSE-ALARM", [f"[{o.rule}] {o.instance}: {o.detail}"[:220] for o in (bad if ALL else bad[:4])]
     if chk.inconclusive:
         return tname, relpath, pid, "inconclusive", [m[:220] for m in chk.inconclusive[:3]]
     return tname, relpath, pid, "silent", []
